@@ -392,6 +392,7 @@ struct FixedFunctionInfo<'a> {
 // but doesn't make something like setting mem_addr without mem_writebit an error
 fn preprocess_fixed<'a>(
     graph: &mut Graph<&'a str>,
+    widths: &'a HashMap<&'a str, WireWidth>,
     constants: &'a WireValues,
     assignments: &'a HashMap<&'a str, &SpannedExpr>,
     known_values: &'a HashSet<&'a str>,
@@ -433,8 +434,13 @@ fn preprocess_fixed<'a>(
                 let mut is_disabled = false;
                 if let Some(enable_signal) = &fixed.disabled_if_false {
                     if let Some(ref enable_expr) = assignments.get(enable_signal.as_str()) {
-                        if let Ok(value) = enable_expr.evaluate(constants) {
-                            is_disabled = !value.is_true();
+                        // only evaluate what the width checker accepts (evaluating anything else can panic)
+                        if enable_expr.get_width_and_check(widths, constants).is_ok() {
+                            let mut enable_expr = (**enable_expr).clone();
+                            enable_expr.fix_mux_widths(widths, constants);
+                            if let Ok(value) = enable_expr.evaluate(constants) {
+                                is_disabled = !value.is_true();
+                            }
                         }
                     }
                 }
@@ -491,7 +497,7 @@ fn assignments_to_actions<'a>(
         }
     }
 
-    let fixed_info = preprocess_fixed(&mut graph, constants, assignments, known_values, fixed_functions)?;
+    let fixed_info = preprocess_fixed(&mut graph, widths, constants, assignments, known_values, fixed_functions)?;
     let (fixed_by_output, fixed_no_output) = (
         fixed_info.fixed_by_output,
         fixed_info.fixed_no_output
